@@ -3,7 +3,7 @@ CFG = {
                 "Parsley.Lemmas.InflateReject", "Parsley.Lemmas.InflateFixedBits", "Parsley.Lemmas.InflateFixed",
                 "Parsley.Spec.DeflateFixed", "Parsley.Spec.DeflateDyn", "Parsley.Lemmas.InflateDynHuff",
                 "Parsley.Lemmas.InflateDynHdr", "Parsley.Lemmas.InflateDyn", "Parsley.Props.C06Dyn",
-                "Parsley.Lemmas.InflatePrefix", "Parsley.Props.C06Reject", "Parsley.Spec.ZlibHdr", "Parsley.Props.C06Hdr"],
+                "Parsley.Lemmas.InflatePrefix", "Parsley.Props.C06Reject", "Parsley.Spec.ZlibHdr", "Parsley.Props.C06Hdr", "Parsley.Props.C06Keys"],
     "theorems": [
         "Parsley.C06.hex_roundtrip", "Parsley.C06.a85_roundtrip",
         "Parsley.C06.flate_glue_complete", "Parsley.C06.flate_glue_rejects",
@@ -74,6 +74,13 @@ CFG = {
         "Parsley.C06.inflate_illegal_header_fields", "Parsley.C06.inflate_storedH_roundtrip", "Parsley.C06.inflate_fixedH_roundtrip",
         "Parsley.C06.inflate_fixedH_roundtrip_closed", "Parsley.C06.inflate_blocksH_roundtrip", "Parsley.C06.inflate_headerNo_roundtrip",
         "Parsley.C06.flateDecode_header_irrelevant", "Parsley.C06.flate_blocksH_roundtrip", "Parsley.C06.flate_illegal_header_is_error",
+        # C06_12: OTHER KEYS of the stream dictionary (Props/C06Keys.lean): entry-level form of dict_pruned, no restriction on the other
+        # keys or their values - whatever decodeStream accepts, the entries it returns are those of the original minus exactly /Filter
+        # and /DecodeParms; the model's pruning is the judge's specPrune
+        "Parsley.C06.prune_mem", "Parsley.C06.prune_eq_self", "Parsley.C06.prune_cons_other", "Parsley.C06.prune_cons_filter",
+        "Parsley.C06.prune_cons_parms", "Parsley.C06.prune_append", "Parsley.C06.prune_spec", "Parsley.C06.prune_no_filter_entries",
+        "Parsley.C06.prune_idem", "Parsley.C06.prune_length", "Parsley.C06.decode_stream_dict",
+        "Parsley.C06.decode_stream_keeps_entry", "Parsley.C06.decode_stream_keeps_lookup", "Parsley.C06.near_keys_differ",
     ],
     "partial": {
         "flate_foreign_encoder_streams (not a theorem)":
@@ -122,7 +129,16 @@ CFG = {
     "exhaustive": {"quick": False, "thorough": False},
     "rustgen": True,
     "shrink": False,
-    "rule": "EMPTY INPUT TO A FILTER (corruption 9, follow-up to seed C06_11): every filter at every chain position fed zero bytes - raw content empty, or the outer filters legitimately decoding to the empty string (`>`, `~>`, zlib streams of no bytes) - must be rejected except where the empty string is an encoding (ASCII85); "
+    "rule": "OTHER KEYS OF THE STREAM DICTIONARY (follow-up to seed C06_12, which pruned /F and /DP too; Driver.C06.otherKeys, corpus other_keys.case): the dictionaries of 384 `sh` cases (+ one random recipe in four) carry, beside "
+            "the filter entries, entries whose keys are NEAR the filter-entry names - the inline-image abbreviations F, DP, Fl, AHx, A85, D; FFilter, FDecodeParms, Filters, Filte, filter, decodeparms, DecodeParm, FilterX, FILTER, "
+            "DecodeParams, DecodeParmsX; L, DL, Type, Subtype, Params, N, First; the empty name; `Filter` / `DecodeParms` followed by a NUL or a space byte, a NUL in front (29 keys) - x values of every kind (12: name /FlateDecode, name /Fl, "
+            "integer, array of filter names, parameter-like dictionary <</Columns 4 /Predictor 12>>, string, reference, null, boolean, real, array holding a dictionary and null, dictionary holding /F /DP /Filter entries), each key "
+            "with each value alone (348) + all 29 keys at once, the six abbreviations together, /F with /DP (12 value rotations each), over NO filter ({no /Filter, empty /Filter array, empty parallel arrays}), each of the seven "
+            "single layers and chains of two and three, under every accepting spelling of /Filter x /DecodeParms (name, name + parameter dictionary, array, parallel arrays, scalar /DecodeParms, lenient one-dictionary form) and "
+            "parameter variants null / <<>> / <</Predictor 1>> / <</Colors 3 /Columns 5>>; expectation (ISO 32000-1 Table 5, independent of the model): decoded dictionary = the case's dictionary minus exactly the keys Filter "
+            "and DecodeParms (the judge checks that the recipe's surviving entries are specPrune of the dictionary the case carries), every value intact; view twins for the dictionaries that can be written as text and read back "
+            "entry for entry (alphanumeric non-empty keys, no null value: 325 quick); "
+            "EMPTY INPUT TO A FILTER (corruption 9, follow-up to seed C06_11): every filter at every chain position fed zero bytes - raw content empty, or the outer filters legitimately decoding to the empty string (`>`, `~>`, zlib streams of no bytes) - must be rejected except where the empty string is an encoding (ASCII85); "
             "corpus (DESIGN 4 #6-#10 inputs, trim/framing oddities) first; rt: recipes built by the Lean spec encoders - every "
             "chain of length <= 2 (quick; all 258 chains <= 3 thorough) over {ASCIIHex, ASCII85, Flate-stored, Flate-fixed-Huffman "
             "literal block, Flate-fixed-Huffman LZ77 factorisation closed by an empty block / with a data-carrying final block, "
